@@ -205,14 +205,22 @@ def check(ctx):
         ctx.check(not early, R2, it, early[0] if early else app_stmt, f"for a {k} the parent list is copied BEFORE the node appends itself: the {k} is recorded only in its private copy, so every component after it on the "
                                                                       f"main path loses the {k}'s fanout from its instance count", f"a {k} appends itself to the list shared with its following siblings")
     arr = [c for c in it.calls("iterate_hierarchically")]
-    ctx.require(len(arr) >= 2, R2, f"{it.fq}: recursive calls")
+    ctx.require(len(arr) >= 1, R2, f"{it.fq}: recursive calls")
+    n_arr_sites = 0
     for c in arr:
         n = icfg.stmt_node_containing(c)
-        conds = [norm(h.ast.test) for h, lab in icfg.control_conditions(n) if h.kind == "if" and lab == "true"]
-        if any("isinstance(self, Array)" in t for t in conds):
+        admits = True
+        for h, lab in icfg.control_conditions(n):
+            if h.kind == "if" and "isinstance" in norm(h.ast.test):
+                v = _eval_guard(repo, h.ast.test, "self", "Array")
+                admits = admits and (v if lab == "true" else not v)
+        if admits:
+            n_arr_sites += 1
             a = norm(c.args[0]) if c.args else ""
             ctx.check(a in ("list(_parents)", "_parents.copy()", "_parents[:]", "[*_parents]"), R2, it, c,
-                      "Array elements share one parent list: each element becomes an ancestor of the next", "each Array element gets its own copy of the parent list")
+                      "Array elements share one parent list: each element becomes an ancestor of the next (a later element's instance count is multiplied by the earlier elements' fanouts)",
+                      "each Array element gets its own copy of the parent list")
+    ctx.require(n_arr_sites >= 1, R2, f"{it.fq}: no recursive call that an Array can reach")
     ctx.floor(R2, 5)
 
     # ---------------- I3b: architecture totals
